@@ -4,7 +4,7 @@ WT=$1; SID=$2
 cd $WT || exit 3
 git diff > /tmp/$SID.patch
 timeout 300 /venv/bin/python demo.py >/tmp/$SID.with.log 2>&1; W=$?
-git stash -q; timeout 300 /venv/bin/python demo.py >/tmp/$SID.without.log 2>&1; WO=$?; git stash pop -q
+git apply -R /tmp/$SID.patch; timeout 300 /venv/bin/python demo.py >/tmp/$SID.without.log 2>&1; WO=$?; git apply /tmp/$SID.patch
 echo "demo with change: exit $W ; without: exit $WO"
 D=/verif/seeded/$SID; mkdir -p $D; cp /tmp/$SID.patch $D/patch.diff; cp demo.py $D/demo.py
 /verif/tools/seed_eval.sh $D/patch.diff 2>&1 | grep -A5 -E "baseline|exit=[12]" | grep -v '^--$' | cut -c1-240
